@@ -178,12 +178,34 @@ def _isinstance_types(call: ast.Call) -> list[str]:
     return out
 
 
+def _isinstance_with_exclusion(test: ast.expr, subject: str):
+    """`isinstance(S, T)`  or  `isinstance(S, T) and not isinstance(S, E)` (possibly among other conjuncts that do not
+    mention isinstance) -> (types T, excluded types E)"""
+    conj = test.values if isinstance(test, ast.BoolOp) and isinstance(test.op, ast.And) else [test]
+    pos, neg = [], []
+    for c in conj:
+        inner, negated = (c.operand, True) if isinstance(c, ast.UnaryOp) and isinstance(c.op, ast.Not) else (c, False)
+        if isinstance(inner, ast.Call) and isinstance(inner.func, ast.Name) and inner.func.id == "isinstance":
+            if ast.unparse(inner.args[0]) != subject:
+                continue
+            (neg if negated else pos).append(inner)
+        elif "isinstance" in ast.unparse(c) and subject in ast.unparse(c):
+            raise Unsupported(f"unexpected isinstance test {ast.unparse(c)}")
+    if len(pos) != 1 or len(neg) > 1:
+        raise Unsupported(f"isinstance tests on {subject}: {len(pos)} positive, {len(neg)} negated")
+    return _isinstance_types(pos[0]), (_isinstance_types(neg[0]) if neg else [])
+
+
 def py_numeric_types():
     f = find_func(find_class(parse(D + "python_analyzer.py"), "PythonMagicNumberAnalyzer"), "visit_Constant")
-    hits = _calls(f, lambda n: isinstance(n.func, ast.Name) and n.func.id == "isinstance")
-    if len(hits) != 1 or ast.unparse(hits[0].args[0]) != "node.value":
-        raise Unsupported("visit_Constant isinstance")
-    return defn("py_numeric_types", "list string", coq_str_list(_isinstance_types(hits[0])))
+    ifs = [st for st in f.body if isinstance(st, ast.If)]
+    if len(ifs) != 1 or ifs[0].orelse:
+        raise Unsupported("visit_Constant: one if expected")
+    types, excluded = _isinstance_with_exclusion(ifs[0].test, "node.value")
+    rest = [c for c in (ifs[0].test.values if isinstance(ifs[0].test, ast.BoolOp) else [ifs[0].test]) if "isinstance" not in ast.unparse(c)]
+    if rest:
+        raise Unsupported(f"visit_Constant: extra condition {ast.unparse(rest[0])}")
+    return defn("py_numeric_types", "list string", coq_str_list(types)) + defn("py_numeric_excluded", "list string", coq_str_list(excluded))
 
 
 def _int_guard(fn: ast.FunctionDef) -> list[str]:
@@ -311,25 +333,53 @@ def ts_types():
 
 
 def ts_int_path():
-    """`if "." not in text and "e" not in text.lower(): return int(text, 0)` else `float(text)`"""
+    """_extract_numeric_value, two accepted shapes:
+         if "." not in text and "e" not in text.lower(): return int(text, 0)
+       and
+         if text.endswith(S): text = text[:-len(S)]
+         lowered = text.lower()
+         if lowered.startswith((P...)) or ("." not in text and "e" not in lowered): return int(text, 0)
+       followed by `return float(text)`"""
     f = find_func(find_class(parse(D + "typescript_analyzer.py"), "TypeScriptMagicNumberAnalyzer"), "_extract_numeric_value")
-    ifs = [n for n in ast.walk(f) if isinstance(n, ast.If)]
-    if len(ifs) != 1 or not isinstance(ifs[0].test, ast.BoolOp) or not isinstance(ifs[0].test.op, ast.And):
-        raise Unsupported("_extract_numeric_value shape")
+    tries = [st for st in f.body if isinstance(st, ast.Try)]
+    if len(tries) != 1:
+        raise Unsupported("_extract_numeric_value: try")
+    body = list(tries[0].body)
+    suffixes, prefixes, lowered_alias = [], [], False
+    if body and isinstance(body[0], ast.If) and ast.unparse(body[0].test).startswith("text.endswith("):
+        st = body.pop(0)
+        suf = const_value(st.test.args[0])
+        if not (isinstance(suf, str) and suf and len(st.body) == 1 and ast.unparse(st.body[0]) == f"text = text[:-{len(suf)}]" and not st.orelse):
+            raise Unsupported("_extract_numeric_value: suffix stripping shape")
+        suffixes = [suf]
+    if body and ast.unparse(body[0]) == "lowered = text.lower()":
+        body.pop(0)
+        lowered_alias = True
+    if len(body) != 2 or not isinstance(body[0], ast.If) or body[0].orelse or ast.unparse(body[0].body[0]) != "return int(text, 0)" \
+            or ast.unparse(body[1]) != "return float(text)":
+        raise Unsupported("_extract_numeric_value: int / float paths")
+    test = body[0].test
+    if isinstance(test, ast.BoolOp) and isinstance(test.op, ast.Or):
+        if len(test.values) != 2 or not lowered_alias:
+            raise Unsupported("_extract_numeric_value: disjunction shape")
+        pre, test = test.values
+        if not (isinstance(pre, ast.Call) and ast.unparse(pre.func) == "lowered.startswith" and len(pre.args) == 1):
+            raise Unsupported("_extract_numeric_value: prefix test")
+        prefixes = str_elems(pre.args[0]) if isinstance(pre.args[0], ast.Tuple) else [const_value(pre.args[0])]
+        if any(p != p.lower() for p in prefixes):
+            raise Unsupported("upper-case prefix tested against lowered text")
+    if not isinstance(test, ast.BoolOp) or not isinstance(test.op, ast.And):
+        raise Unsupported("_extract_numeric_value: needle test")
     needles = []
-    for t in ifs[0].test.values:
+    for t in test.values:
         if not (isinstance(t, ast.Compare) and isinstance(t.ops[0], ast.NotIn)):
             raise Unsupported("int-path test")
         hay = ast.unparse(t.comparators[0])
-        if hay not in ("text", "text.lower()"):
+        if hay not in (("text", "lowered") if lowered_alias else ("text", "text.lower()")):
             raise Unsupported("int-path haystack")
-        needles.append(f"({coq_string(const_value(t.left))}, {'true' if hay == 'text.lower()' else 'false'})")
-    if ast.unparse(ifs[0].body[0]) != "return int(text, 0)":
-        raise Unsupported("int(text, 0)")
-    tail = [s for s in ast.walk(f) if isinstance(s, ast.Return)]
-    if "return float(text)" not in [ast.unparse(s) for s in tail]:
-        raise Unsupported("float(text)")
-    return defn("ts_int_path_needles", "list (string * bool)", coq_list(needles))
+        needles.append(f"({coq_string(const_value(t.left))}, {'true' if hay != 'text' else 'false'})")
+    return (defn("ts_int_path_needles", "list (string * bool)", coq_list(needles))
+            + defn("ts_int_prefixes", "list string", coq_str_list(prefixes)) + defn("ts_bigint_suffixes", "list string", coq_str_list(suffixes)))
 
 
 def ts_test_markers():
@@ -354,14 +404,37 @@ def rs_types():
 
 
 def rs_suffixes():
+    """_strip_type_suffix, two accepted shapes: the plain loop, and the loop that skips suffixes starting with K for a
+    literal whose first two characters (lowered) are one of P"""
     f = find_func(find_class(parse(D + "rust_analyzer.py"), "RustMagicNumberAnalyzer"), "_strip_type_suffix")
-    v = [s.value for s in f.body if isinstance(s, ast.Assign) and ast.unparse(s.targets[0]) == "suffixes"]
-    if len(v) != 1:
+    body = [st for st in f.body if not (isinstance(st, ast.Expr) and isinstance(st.value, ast.Constant))]
+    if not (body and isinstance(body[0], ast.Assign) and ast.unparse(body[0].targets[0]) == "suffixes"):
         raise Unsupported("suffixes tuple")
-    src = ast.unparse(f)
-    if "if text.endswith(suffix):" not in src or "return text[:-len(suffix)]" not in src:
+    table = str_elems(body[0].value)
+    rest = body[1:]
+    markers, skip = [], []
+    if rest and isinstance(rest[0], ast.Assign) and ast.unparse(rest[0].targets[0]) == "prefixed":
+        v = rest[0].value
+        if not (isinstance(v, ast.Compare) and isinstance(v.ops[0], ast.In) and ast.unparse(v.left) == "text[:2].lower()"):
+            raise Unsupported("prefixed = ... shape")
+        markers = str_elems(v.comparators[0])
+        if any(len(m) != 2 or m != m.lower() for m in markers):
+            raise Unsupported("prefix markers")
+        rest = rest[1:]
+    if len(rest) != 2 or not isinstance(rest[0], ast.For) or ast.unparse(rest[0].iter) != "suffixes" or ast.unparse(rest[1]) != "return text":
+        raise Unsupported("_strip_type_suffix loop")
+    loop = list(rest[0].body)
+    if markers:
+        st = loop.pop(0)
+        if not (isinstance(st, ast.If) and isinstance(st.test, ast.BoolOp) and isinstance(st.test.op, ast.And) and len(st.test.values) == 2
+                and ast.unparse(st.test.values[0]) == "prefixed" and ast.unparse(st.test.values[1].func) == "suffix.startswith"
+                and len(st.body) == 1 and isinstance(st.body[0], ast.Continue) and not st.orelse):
+            raise Unsupported("skip test shape")
+        skip = [const_value(st.test.values[1].args[0])]
+    if len(loop) != 1 or ast.unparse(loop[0]).replace("\n", " ").split() != "if text.endswith(suffix): return text[:-len(suffix)]".split():
         raise Unsupported("_strip_type_suffix shape")
-    return defn("rs_suffixes", "list string", coq_str_list(str_elems(v[0])))
+    return (defn("rs_suffixes", "list string", coq_str_list(table)) + defn("rs_prefixed_markers", "list string", coq_str_list(markers))
+            + defn("rs_prefixed_skip", "list string", coq_str_list(skip)))
 
 
 def rs_context():
@@ -407,19 +480,23 @@ def definition_detector():
     ln = [n for n in ast.walk(k) if isinstance(n, ast.Compare) and ast.unparse(n.left) == "len(name)"]
     if len(rx) != 1 or len(ln) != 1:
         raise Unsupported("_is_constant_name (definition detector)")
-    nt = find_func(mod, "_is_numeric_constant")
-    it = find_func(mod, "_is_int_key")
-    tn = [c for c in _calls(nt, lambda n: ast.unparse(n.func) == "isinstance") if ast.unparse(c.args[0]) == "value.value"]
-    ti = [c for c in _calls(it, lambda n: ast.unparse(n.func) == "isinstance") if ast.unparse(c.args[0]) == "key.value"]
-    if len(tn) != 1 or len(ti) != 1:
-        raise Unsupported("numeric constant / int key tests")
+    def ret_test(fn_name, subject, outer):
+        fn = find_func(mod, fn_name)
+        rets = [st.value for st in fn.body if isinstance(st, ast.Return)]
+        if len(rets) != 1 or not isinstance(rets[0], ast.BoolOp) or not isinstance(rets[0].op, ast.And) or ast.unparse(rets[0].values[0]) != outer:
+            raise Unsupported(f"{fn_name}: return shape")
+        if len(rets[0].values) > 3:
+            raise Unsupported(f"{fn_name}: extra conjunct")
+        return _isinstance_with_exclusion(ast.BoolOp(op=ast.And(), values=rets[0].values[1:]), subject)
+    tn, tn_ex = ret_test("_is_numeric_constant", "value.value", "isinstance(value, ast.Constant)")
+    ti, ti_ex = ret_test("_is_int_key", "key.value", "isinstance(key, ast.Constant)")
     return (defn("def_min_upper", "nat", str(mu)) + defn("def_min_upper_cmp", "cmp", cmp_op(c1[0]))
             + defn("def_min_dict", "nat", str(md)) + defn("def_min_dict_cmp", "cmp", cmp_op(c2[0]))
             + defn("def_name_patterns", "list (bool * string)", coq_list(pats))
             + defn("def_const_regex", "string", coq_string(const_value(rx[0].args[0])))
             + defn("def_const_short_cmp", "cmp", cmp_op(ln[0])) + defn("def_const_short_len", "nat", str(int(const_value(ln[0].comparators[0]))))
-            + defn("def_numeric_types", "list string", coq_str_list(_isinstance_types(tn[0])))
-            + defn("def_int_key_types", "list string", coq_str_list(_isinstance_types(ti[0]))))
+            + defn("def_numeric_types", "list string", coq_str_list(tn)) + defn("def_numeric_excluded", "list string", coq_str_list(tn_ex))
+            + defn("def_int_key_types", "list string", coq_str_list(ti)) + defn("def_int_key_excluded", "list string", coq_str_list(ti_ex)))
 
 
 # ------------------------------------------------------------------ violation_builder.py
@@ -433,8 +510,13 @@ def messages():
         if len(msg) != 1 or sorted(ast.unparse(k.value) for k in kws) != ["line", "message"]:
             raise Unsupported(f"{fn}: message / line")
         parts = fstring_parts(msg[0])
-        if [k for k, _ in parts] != ["lit", "var", "lit"] or parts[1][1] != "value":
+        if [k for k, _ in parts] != ["lit", "var", "lit"] or parts[1][1] not in ("value", "_show(value)"):
             raise Unsupported(f"{fn}: message shape")
+        if parts[1][1] == "_show(value)":
+            sh = find_func(parse(D + "violation_builder.py"), "_show")
+            tr = [st for st in sh.body if isinstance(st, ast.Try)]
+            if len(tr) != 1 or ast.unparse(tr[0].body[0]) != "return str(value)":
+                raise Unsupported("_show: str(value) first")
         out += defn(f"{lang}_msg_prefix", "string", coq_string(parts[0][1])) + defn(f"{lang}_msg_suffix", "string", coq_string(parts[2][1]))
     rid = find_func(find_class(parse(D + "linter.py"), "MagicNumberRule"), "rule_id")
     r = [s.value for s in rid.body if isinstance(s, ast.Return)]
